@@ -313,7 +313,10 @@ def register_subtree(R):
         def f(S):
             t = wf_tree(S, size=size)
             n = nof(t)
-            sid, spid = S.arr("int", n=S.int("sn"), name="sub_id"), S.arr("int", name="sub_pid")
+            if size is None:
+                sid, spid = S.arr("int", n=S.int("sn"), name="sub_id"), S.arr("int", name="sub_pid")
+            else:  # the marked table has one entry per row of the tree (what to_subtree hands over), each kept or marked
+                sid, spid = S.arr("int", n=int(size), name="sub_id"), S.arr("int", n=int(size), name="sub_pid")
             out = None if kind == "none" else (PList([7, 8]) if kind == "list" else S.pdict("int", name="out_mapping"))
             return dict(swc_like=t, sub=(sid, spid), out_mapping=out)
 
@@ -347,12 +350,20 @@ def register_subtree(R):
         om, mapping = v["out_mapping"], v["mapping"]
         if not isinstance(om, PDict) or om.items is not None:
             return False
-        kk = to_z3(v["_k0"], "int")
+        kk = to_z3(v["_kfill"], "int")
         j = z3.Int(fresh_name("j"))
         return z3.ForAll([j], z3.And(sel(om.dom, j) == z3.And(j >= 0, j < kk), z3.Implies(z3.And(j >= 0, j < kk), sel(om.val, j) == mapping.get(j).z)))
 
     # the loop variable `new_id` shadows the array of that name (already stored in ndata): at the loop head it is an int
-    DICT_LOOP = {0: dict(invariant=[("keys-so-far-map-to-the-old-ids", dict_fill_inv)], rebind={"new_id": lambda eng, cur: fresh("int", "new_id")})}
+    def is_dict_fill_loop(node):
+        """`for <new>, <old> in enumerate(mapping)` -- the loop that fills a caller's dict (wherever it stands among the function's loops)"""
+        import ast
+
+        it = getattr(node, "iter", None)
+        return (isinstance(it, ast.Call) and isinstance(it.func, ast.Name) and it.func.id == "enumerate" and len(it.args) == 1
+                and isinstance(it.args[0], ast.Name) and it.args[0].id == "mapping")
+
+    DICT_LOOP = {"dict-fill": dict(applies=is_dict_fill_loop, index="_kfill", invariant=[("keys-so-far-map-to-the-old-ids", dict_fill_inv)], rebind={"new_id": lambda eng, cur: fresh("int", "new_id")})}
 
     def impl_post(which):
         def f(E, v, o):
@@ -403,7 +414,7 @@ def register_subtree(R):
     R.add(f"{IMPL}:to_subtree_impl", prop="C06",
           variants={"no-mapping-requested": impl_setup("none"), "mapping-into-a-list": impl_setup("list"), "mapping-into-a-dict": impl_setup("dict")},
           **TI, notes="out_mapping: None, a list or a dict (any previous content is discarded)")
-    # the same contract on trees of a fixed small number of rows (the marked table keeps its symbolic length)
+    # the same contract on trees of a fixed small number of rows (the marked table has one entry per row, as to_subtree hands it over)
     R.add(f"{IMPL}:to_subtree_impl", prop="C06",
           variants={f"{fixed_name(m)}, {nm}": impl_setup(kind, size=m) for m in FIXED_SIZES for kind, nm in (("none", "no-mapping-requested"), ("dict", "mapping-into-a-dict"))},
           **TI, notes=FIXED_NOTE)
@@ -480,12 +491,19 @@ def register_subtree(R):
 
     MARKS = marked_array_name(f"{TU}:to_subtree")  # to_subtree's local array of removal marks (whatever it is called)
 
+    def is_marking_loop(node):
+        """`for <i> in removals` -- the loop that marks the requested nodes (wherever it stands among the function's loops)"""
+        import ast
+
+        it = getattr(node, "iter", None)
+        return isinstance(it, ast.Name) and it.id == "removals"
+
     def ts_inv(which):
         def f(E, v, o):
             t = v["swc_like"]
             n = nof(t)
             rem = v["removals"]
-            k = to_z3(v["_k0"], "int")
+            k = to_z3(v["_kmark"], "int")
             x, j = z3.Int(fresh_name("x")), z3.Int(fresh_name("j"))
             a = v.get(MARKS)
             if not isinstance(a, SArr):
@@ -581,7 +599,7 @@ def register_subtree(R):
     TS = dict(requires=[wf_clause(w) for w in WF] + [("removals-are-node-ids", ts_pre_removals)],
               returns=ts_result, modifies=["out_mapping"], inlined_loops={f"{IMPL}:to_subtree_impl": DICT_LOOP},
               ensures=[(nm, ts_post(nm)) for nm in TS_POSTS],
-              loops={0: dict(invariant=[("marks-so-far", ts_inv("marks-so-far"))])})
+              loops={"marking": dict(applies=is_marking_loop, index="_kmark", invariant=[("marks-so-far", ts_inv("marks-so-far"))])})
     R.add(f"{TU}:to_subtree", prop="C06",
           variants={"removals in a list": ts_setup("list"), "removals in a set": ts_setup("set"),
                     "removals in a list, mapping into a list": ts_setup("list", "list"), "removals in a list, mapping into a dict": ts_setup("list", "dict")},
